@@ -497,9 +497,14 @@ def _build_eval_tree(
                     # multiple exponents
                     #     (2^3^4)  --> (2^(3^4))
                     #     (2 * 3 / 4) --> ((2 * 3) / 4)
-                    if op_priority[token_text] <= op_priority.get(
-                        prev_op, -1
-                    ) and token_text not in ("**", "^"):
+                    # (an operator of strictly higher priority, +/-, ends before an exponent too)
+                    priority, prev_priority = (
+                        op_priority[token_text],
+                        op_priority.get(prev_op, -1),
+                    )
+                    if priority < prev_priority or (
+                        priority == prev_priority and token_text not in ("**", "^")
+                    ):
                         # previous operator is higher priority, so end previous binary op
                         return result, index - 1
                     # get right side of binary op
